@@ -79,23 +79,8 @@ def run(chk):
         chk.check(kw.get("timeout") == "self.RESPONSE_TIMEOUT" and kw.get("block", "True") == "True", "R1", f"{CL}:SdoClient.read_response | bounded wait", rd.loc(c), f"{src(c)}")
 
     # ------------------------------------------------------------------ R2 flush before send
-    sends = [n for n in ff.cfg.nodes if node_calls(n, "self.send_request")]
-    flushes = [n for n in ff.cfg.nodes if n.kind == "stmt" and isinstance(n.ast, ast.Assign) and dotted(n.ast.targets[0]) == "self.responses"
-               and src(n.ast.value) == "queue.Queue()"]
-    tests = [n for n in ff.cfg.nodes if n.kind == "test" and ff.is_form(n.ast, "not self.responses.empty()")]
-    if not flushes or not tests:
-        chk.bad("R2", f"{CL}:SdoClient.request_response | stale responses flushed", rr.loc(),
-                "no flush of the response queue before sending: a late or duplicated response of an earlier transfer is taken as the answer to this request")
-    else:
-        for s_ in sends:
-            ok = any(ff.cfg.dominates(t, s_) for t in tests) and not any(s_ in ff.cfg.reach_from(s2) and False for s2 in sends)
-            chk.check(ok, "R2", f"{CL}:SdoClient.request_response | flush test dominates send", rr.loc(s_.ast), "a request can be sent without the flush test")
-        for fl in flushes:
-            g = [(ff.norm(e, subst=False), p) for e, p in ff.facts_at(fl.ast)]
-            chk.check((ff.canon("self.responses.empty()"), False) in g, "R2", f"{CL}:SdoClient.request_response | flush when not empty", rr.loc(fl.ast), f"flush under {g}")
-            # flush happens before the send, not after
-            chk.check(all(s_ in ff.cfg.reach_from(fl) for s_ in sends) and not any(fl in ff.cfg.reach_from(s_) for s_ in sends), "R2",
-                      f"{CL}:SdoClient.request_response | flush precedes send", rr.loc(fl.ast), "the queue is replaced after a request was sent: the genuine response may be dropped")
+    from . import shared
+    shared.client_flush(chk, "R2")
 
     # ------------------------------------------------------------------ R3 validate before use
     for fq, scs, sub, mux in SITES:
@@ -138,22 +123,7 @@ def run(chk):
     chk.saw(op)
     made = {dotted(c.func) for c in ast.walk(op.node) if isinstance(c, ast.Call)} & {"ReadableStream", "WritableStream", "BlockUploadStream", "BlockDownloadStream"}
     chk.check(len(made) == 4, "R6", f"{CL}:SdoClient.open | fresh stream object per transfer", op.loc(), f"open() constructs {sorted(made)}")
-    for fname in ("init_upload", "init_download"):
-        f = repo.func(SV, f"SdoServer.{fname}", "C07.R6")
-        fs = ff_for(chk, f, "C07.R6")
-        bufs = [n for n in fs.cfg.nodes if n.kind == "stmt" and (
-            (isinstance(n.ast, ast.Assign) and (dotted(n.ast.targets[0]) == "self._buffer" or
-                                                (isinstance(n.ast.targets[0], ast.Subscript) and dotted(n.ast.targets[0].value) == "self._buffer")))
-            or (isinstance(n.ast, ast.Delete) and isinstance(n.ast.targets[0], ast.Subscript) and dotted(n.ast.targets[0].value) == "self._buffer")
-            or node_calls(n, "self._buffer.clear"))]
-        togs = [n for n in fs.cfg.nodes if n.kind == "stmt" and isinstance(n.ast, ast.Assign) and dotted(n.ast.targets[0]) == "self._toggle"
-                and folder.try_fold(n.ast.value, Scope(f.mod), None) == 0]
-        chk.floor("R6", len(bufs), 1, f"segmented-transfer buffer set-up in {fname}")
-        for b in bufs:
-            ok = any(fs.cfg.dominates(b, t) or fs.cfg.dominates(t, b) for t in togs) and any(
-                {x for x in fs.facts_in().get(t) or ()} == {x for x in fs.facts_in().get(b) or ()} or fs.cfg.dominates(t, b) for t in togs)
-            chk.check(ok, "R6", f"{SV}:SdoServer.{fname} | toggle reset with the buffer", f.loc(b.ast),
-                      "a new segmented transfer is set up without resetting the toggle bit: after an interrupted transfer the next one is refused with a toggle error")
+    shared.server_reset(chk, "R6")
 
 
 def _toggle_fact(fr, r) -> bool:
